@@ -50,6 +50,8 @@ func checkC13(c *core.Ctx) error {
 	checkLogTwins(c)
 	checkLogErfc(c)
 	checkGammaDispatcher(c)
+	checkRecurrences(c)
+	checkMgamma(c)
 	return nil
 }
 
